@@ -1,6 +1,6 @@
 SPEC_PART = dict(
     props_file="C17_tdigest",
-    legs=[dict(family="tdigest", focus="extremes", oracles=["no_panic", "prop_ok", "tie_ok", "c15_ok"], profiles=["debug", "release"],
+    legs=[dict(family="tdigest", focus="extremes", oracles=["no_panic", "prop_ok", "c15_ok"], tie_oracles=["tie_ok"], profiles=["debug", "release"],
                mask=[0, 1, 7, 8, 9, 10, 14, 15, 17, 19, 21], n_quick=36, n_thorough=240, panic_is_violation=True)],
     trusted=["tdigest: panic sites modelled as Stuck: TDigestMut::new(k < 10), the assert_ne! / usize underflow sites of rank, "
              "unreachable!() in cdf, check_split_points, every reader site; the merge pass (do_merge) is a relation, its sites "
